@@ -112,9 +112,31 @@ func c18SweepLispValues() []slip.Object {
 	}
 }
 
+// c18NestedSingles: every nesting (depth 1..3) of one-element lists around a string, a symbol, nil, a
+// number, the empty string — alone, as the first element before a second entry, and as a later
+// element (a one-element list is what `(cons "a" nil)` is: it must stay an array, never an assoc entry;
+// seeded C18-11)
+func c18NestedSingles() []slip.Object {
+	var out []slip.Object
+	elems := []slip.Object{slip.String("a"), slip.Symbol("a"), nil, slip.Fixnum(1), slip.String(""), slip.Symbol(":k")}
+	for _, e := range elems {
+		cur := e
+		for depth := 1; depth <= 3; depth++ {
+			cur = slip.List{cur}
+			out = append(out, cur,
+				slip.List{cur, slip.List{slip.String("b"), slip.String("c")}},
+				slip.List{cur, slip.Fixnum(5)},
+				slip.List{slip.String("b"), cur},
+				slip.List{cur, cur},
+				slip.List{slip.List{slip.String("k"), slip.Tail{Value: cur}}})
+		}
+	}
+	return out
+}
+
 func (r *c18Run) sweepOfLisp() []*c18Case {
 	var out []*c18Case
-	for _, o := range c18SweepLispValues() {
+	for _, o := range append(c18SweepLispValues(), c18NestedSingles()...) {
 		for via := 0; via < 4; via++ {
 			out = append(out, &c18Case{Family: "oflisp", GoVal: lw(o), Via: via, Sweep: true, Cell: "value"})
 		}
